@@ -55,6 +55,7 @@ func TestC05LeastConnections(t *testing.T) {
 		var evs []lcEvent
 		var pre []int
 		var viol string
+		dressLabel := ""
 		informative, startsWhileEjected, finishes, ties, excludedStarts := 0, 0, 0, 0, 0
 		rapid.SyncTest(rt, func(rt *rapid.T) {
 			// weights play no part in least_connections (the statement compares in-flight counts
@@ -70,6 +71,8 @@ func TestC05LeastConnections(t *testing.T) {
 				rt.Fatalf("harness: %v", err)
 			}
 			defer p.close()
+			p.dressFrom(rt)
+			dressLabel = p.dress.Label()
 			t0 := time.Now()
 			inflight := map[string]int{} // the model
 			parked := map[string]int{}
@@ -146,8 +149,9 @@ func TestC05LeastConnections(t *testing.T) {
 					evs = append(evs, lcEvent{K: "start"})
 					before := p.fn.Arrivals()
 					outstanding++
+					req := p.nextReq()
 					go func() {
-						st, _, _, _ := lab.Serve(p.lb, pickReq())
+						st, _, _, _ := lab.Serve(p.lb, req)
 						done <- st
 					}()
 					synctest.Wait()
@@ -279,7 +283,7 @@ func TestC05LeastConnections(t *testing.T) {
 		if weighted {
 			labels = append(labels, "non-uniform-weights")
 		}
-		sub.Case(map[string]any{"n0": n0, "preload": pre, "weighted": weighted, "events": evs}, informative > 0, labels...)
+		sub.Case(map[string]any{"n0": n0, "preload": pre, "weighted": weighted, "events": evs, "dress": dressLabel}, informative > 0, append(labels, dressLabel)...)
 		if viol != "" {
 			rt.Fatalf("least_connections n0=%d preload=%v events=%+v: %s", n0, pre, evs, viol)
 		}
